@@ -24,7 +24,7 @@ done
 RACE=""; grep -qi "race" $OUT/meta$X.txt 2>/dev/null && [ "$ID" = "C11" ] && RACE="-race"
 cp "$DEMO" zz_demo_test.go 2>/dev/null
 with=$(go test -vet=off $RACE -count=1 -run "TestSeeded$X" . 2>&1 | tail -3 | grep -c -E "^(FAIL|--- FAIL|panic)")
-rm -f zz_demo_test.go; git checkout -q -- .
+rm -f zz_demo_test.go; git checkout -q -- .; git clean -fdq
 cp "$DEMO" zz_demo_test.go 2>/dev/null
 without=$(go test -vet=off $RACE -count=1 -run "TestSeeded$X" . 2>&1 | tail -3 | grep -c -E "^ok")
 rm -f zz_demo_test.go
